@@ -56,7 +56,10 @@ ASSUMPTIONS = [
     'on the real objects that every such view is attached to its stream, except for a stream whose flows were re-bound '
     'because its proxy partner was flow-linked (hypothesis NoAliasRelink of the theorem views_follow_parent); views '
     'are not operands of the MODELLED operations; `viewops` (oracle only, on private copies) uses a view as source of '
-    'pickle / proxy / flow_proxy / copy / copy_like / link_with and as target of copy_like from a stream of its phase',
+    'pickle / proxy / flow_proxy / copy / copy_like / link_with and as target of copy_like from a stream of its phase; '
+    'the copy, the flow proxy and the unpickled copy of a view must be free-standing streams: `phase =`, copy_like from a '
+    'stream in another phase (a fresh one and the history\'s), unlink and `phases =` work on them and leave the phase, T, P '
+    '(and, except through the flow proxy, the flows) of the view and its stream alone',
     'non-stream pickles (Reaction, ParallelReaction, SeriesReaction, ReactionSystem, Chemical, Thermo incl. non-default '
     'Gamma / Phi / PCF and a mixture with excess energies, Reaction between phases, ReactionItem, CompiledChemicals) are decided by the ORACLE (observable state before/after, also across sessions); the '
     '`pslots` protocol line only echoes the fingerprints of the original object (no independent model), `pchems` '
@@ -935,6 +938,58 @@ def apply(W: World, line: str):
         if shared_parts(c, ms, ('rows', 'tc')) or c._imol.data.dct is v._imol.data.dct:
             raise OracleFail('viewops:copy-shares', 'the copy of a view shares data with the stream')
         probe_independent(c, [ms], 'viewops:copy-not-independent')
+        # the copy, the flow proxy and the unpickled copy of a view are free-standing streams: their phase can be set,
+        # they take the conditions of a stream in another phase, they can become multi-phase and be unlinked — and
+        # the view and its stream keep their phase(s)
+        other = 'g' if ph != 'g' else 'l'
+        donor = tmo.Stream(None, phase=other, T=ms.T + 5., P=ms.P, thermo=ms.thermo, **{ms.chemicals.IDs[0]: 2.})
+        donors = [('another-phase', donor)]
+        if not any(cc not in set(pkg_of(ms)) for r in rows_of(src) for cc in row_dict(src, r)):
+            donors.append(('history', src))
+        flows_of = lambda x: {p_: d for p_, d in ((p_, row_dict(x, r)) for p_, r in zip(phases_of(x), rows_of(x))) if d}
+        for kind_, make in (('copy', lambda: v.copy()), ('flowproxy', lambda: v.flow_proxy()),
+                            ('unpickled', lambda: pickle.loads(pickle.dumps(v)))):
+            shares_flows = kind_ == 'flowproxy'
+            msTP, msph = (ms.T, ms.P), phases_of(ms)
+            keep = [dict(r.dct) for r in rows_of(ms)]
+
+            def settle(what):
+                # the stream of the view: phases, T, P never move; its flows only through a flow proxy (restored here)
+                if phases_of(ms) != msph or v.phase != ph or (ms.T, ms.P) != msTP:
+                    raise OracleFail(f'viewops:{kind_}-{what}-moves-view', f'{what} on the {kind_} of the view {i}[{ph!r}] '
+                                     f'changed phase / T / P of the view or its stream')
+                now = [dict(r.dct) for r in rows_of(ms)]
+                if now != keep:
+                    if not shares_flows:
+                        raise OracleFail(f'viewops:{kind_}-{what}-moves-view', f'{what} on the {kind_} of the view changed the flows of its stream')
+                    for r, d in zip(rows_of(ms), keep): r.dct.clear(); r.dct.update(d)
+            W.tags.append(f'viewops:free-standing-{kind_}')
+            c = make()
+            attempt(f'{kind_}-set-phase', lambda: setattr(c, 'phase', other))
+            if phases_of(c) != (other,) or flows_of(c) != ({other: vrow()} if vrow() else {}):
+                raise OracleFail(f'viewops:{kind_}-set-phase', f'after phase = {other!r} the {kind_} of the view has {cond(c)}')
+            settle('set-phase')
+            for dname, d0 in donors:
+                c = make(); d = d0.copy()
+                attempt(f'{kind_}-copylike-{dname}', lambda: c.copy_like(d))
+                if flows_of(c) != flows_of(d) or (c.T, c.P) != (d.T, d.P) or (not is_multi(d) and phases_of(c) != phases_of(d)):
+                    raise OracleFail(f'viewops:{kind_}-copylike-not-equal', f'the {kind_} of the view after copy_like: {cond(c)}, source {cond(d)}')
+                settle('copy_like')
+            c = make()
+            attempt(f'{kind_}-unlink', lambda: c.unlink())
+            if cond(c) != want: raise OracleFail(f'viewops:{kind_}-unlink-values', f'unlink changed the {kind_} of the view: {cond(c)} vs {want}')
+            if shared_parts(c, ms, ('rows', 'tc', 'phase')) or c._imol.data.dct is v._imol.data.dct or c._imol._phase is v._imol._phase:
+                raise OracleFail(f'viewops:{kind_}-unlink-shares', f'after unlink the {kind_} of the view still shares data with the stream')
+            settle('unlink')
+            c = make()
+            newph = tuple(sorted({ph, other}))
+            attempt(f'{kind_}-set-phases', lambda: setattr(c, 'phases', newph))
+            tot = {}
+            for d_ in flows_of(c).values():
+                for cc, vv in d_.items(): tot[cc] = tot.get(cc, 0.) + vv
+            if not is_multi(c) or tot != vrow():
+                raise OracleFail(f'viewops:{kind_}-set-phases', f"after phases = {newph} the {kind_} of the view has {cond(c)}")
+            settle('set-phases')
         # target.copy_like(view)
         tgt = src.copy()
         missing = any(cc not in set(pkg_of(tgt)) for cc in vrow())
